@@ -251,6 +251,7 @@ const prelude = `(set-option :produce-models true)
 (declare-fun selem_i (Int) Int)
 (assert (forall ((b Int) (i Int)) (! (and (= (selem_b (selem b i)) b) (= (selem_i (selem b i)) i) (< (selem b i) 0)) :pattern ((selem b i)))))
 (declare-fun root (Int) Int)
+(assert (= (root 0) 0))
 (assert (forall ((b Int) (i Int)) (! (= (root (selem b i)) (root b)) :pattern ((selem b i)))))
 (declare-fun xor8 (Int Int) Int)
 (declare-fun and8 (Int Int) Int)
